@@ -104,3 +104,37 @@ class OutNone(Command):
 
     def execute(self, **kw):
         return None
+
+
+class Echo(Command):
+    """every parameter kind, all optional; the result is the cleaned keyword arguments (commands by result name)"""
+
+    inputs = {
+        "S": params.StringParameter(required=False),
+        "S2": params.StringParameter(required=False),
+        "N": params.NumberParameter(required=False),
+        "N2": params.NumberParameter(required=False),
+        "B": params.BooleanParameter(required=False),
+        "P": params.PathParameter(must_exist=False, required=False),
+        "DT": params.DataTypeParameter(required=False),
+        "L": params.ListParameter(params.NumberParameter(), required=False),
+        "LS": params.ListParameter(params.StringParameter(), required=False),
+        "NL": params.ListParameter(params.ListParameter(params.NumberParameter()), required=False),
+        "R": params.ResultParameter(required=False),
+        "RL": params.ListParameter(params.ResultParameter(), required=False),
+    }
+    output = params.TupleParameter()
+
+    def execute(self, **kw):
+        def d(v):
+            if isinstance(v, Command):
+                return ("cmd", v.result_name)
+            if isinstance(v, (list, tuple)):
+                return [d(x) for x in v]
+            if isinstance(v, type):
+                return ("type", v.__name__)
+            if isinstance(v, dict):  # a tuple parameter is a map: the order of its pairs carries no meaning
+                return ("dict", sorted((repr(a), repr(b)) for a, b in v.items()))
+            return (type(v).__name__, repr(v))
+
+        return {k: d(v) for k, v in sorted(kw.items())}
